@@ -7,7 +7,7 @@
    applied to parameter slice [bproj sp b] and data slice [bproj sd b]. *)
 From Coq Require Import Arith List.
 Import ListNotations.
-From GPV Require Import Base.LinAlg Models.C08_shape Proofs.C08_shape Models.C08_diag Proofs.C08_diag.
+From GPV Require Import Base.LinAlg Models.C08_shape Proofs.C08_shape Models.C08_diag Proofs.C08_diag Models.C08_prior Proofs.C08_prior.
 
 (* row-major ravel/unravel round trips, all ranks, all shapes *)
 Theorem c08_ravel_unravel :
@@ -168,6 +168,44 @@ Theorem c08_constant_kernel_batch_fails_iff :
   forall sp sd t, broadcast_shapes sp sd = Some t -> (constant_kernel_batch sp sd = None <-> t <> sd).
 Proof. exact mt_noise_batch_fails_iff. Qed.
 Print Assumptions c08_constant_kernel_batch_fails_iff.
+
+(* ---- hyperparameter priors in the marginal log likelihoods (Models/C08_prior.v): a prior term has shape sp ++ ev
+   (sp = batch shape of the owner's parameters, ev = event dims of the value); what is added to the objective must have
+   shape sp (then element b receives slice [bproj sp b], c08_bproj_is_expand).
+   Owner with a batch_shape attribute = sp: exactly the event dims are summed, for every rank of the objective *)
+Theorem c08_prior_term_known_owner :
+  forall sp ev r, prior_reduced_shape (Some sp) r (sp ++ ev) = sp.
+Proof. exact prior_known_owner. Qed.
+Print Assumptions c08_prior_term_known_owner.
+(* Owner WITHOUT a batch_shape attribute (likelihood, LinearMean, the model): the code guesses "rank of the objective";
+   right exactly when the parameters have the full batch rank or the value has no event dims *)
+Theorem c08_prior_term_unknown_owner_iff :
+  forall sp ev r, length sp <= r ->
+    (prior_reduced_shape None r (sp ++ ev) = sp <-> (r = length sp \/ ev = [])).
+Proof. exact prior_unknown_owner_iff. Qed.
+Print Assumptions c08_prior_term_unknown_owner_iff.
+(* ... hence refuted as stated for all broadcast patterns (finding C08-exact-mll-prior-owner-without-batch-shape):
+   non-batched LinearMean weights [2;1] under a data batch [2] are kept as if they were two batch elements *)
+Theorem c08_prior_term_unknown_owner_refuted :
+  exists sp sd t ev, broadcast_shapes sp sd = Some t /\ prior_reduced_shape None (length t) (sp ++ ev) <> sp
+                     /\ prior_reduced_shape None (length t) (sp ++ ev) = t.
+Proof. exact prior_unknown_owner_refuted. Qed.
+Print Assumptions c08_prior_term_unknown_owner_refuted.
+(* treating a missing batch_shape as the empty batch shape keeps nothing, and summing the whole term (the approximate
+   MLLs, finding C08-approximate-mll-prior-summed-over-batch) is wrong for every non-empty parameter batch *)
+Theorem c08_prior_term_empty_owner_keeps_nothing :
+  forall term r, prior_reduced_shape (Some []) r term = [].
+Proof. exact prior_empty_owner. Qed.
+Print Assumptions c08_prior_term_empty_owner_keeps_nothing.
+Theorem c08_prior_term_sum_all_refuted :
+  forall sp ev, sp <> [] -> approx_prior_reduced_shape (sp ++ ev) <> sp.
+Proof. exact prior_sum_all_wrong. Qed.
+Print Assumptions c08_prior_term_sum_all_refuted.
+(* the input-class bit the driver keys the finding with *)
+Theorem c08_param_rank_short_spec :
+  forall sp sd t, broadcast_shapes sp sd = Some t -> (param_rank_short sp t = false <-> length t = length sp).
+Proof. exact param_rank_short_spec. Qed.
+Print Assumptions c08_param_rank_short_spec.
 
 (* non-vacuity: parameters of batch shape [2;1] against data of batch shape [3] *)
 Example ex_c08_broadcast :
